@@ -42,11 +42,26 @@ def mc_and_replay(run, fam, maxact, invs, hosts, need=("MResolve", "MDrop", "MAb
         scheds = [scheds[int(i * step)] for i in range(cap)]
     if not scheds:
         raise lib.ToolError("no schedules harvested")
+    # "take" markers -> actions that are not followed by a take are batched with the next one
+    for s_ in scheds:
+        steps = []
+        raw = s_["steps"]
+        for k, st in enumerate(raw):
+            if st["a"] == "take":
+                continue
+            st = dict(st)
+            if st["a"] != "run" and (k + 1 >= len(raw) or raw[k + 1]["a"] != "take"):
+                st["nt"] = True
+            steps.append(st)
+        s_["steps"] = steps
     for host in hosts:
         cp, tp = run.path(f"h_{fam}_{host}.cases"), run.path(f"h_{fam}_{host}.trace")
         with open(cp, "w") as f:
             for i, s in enumerate(scheds):
-                steps = [st for st in s["steps"] if not (host == "stream" and st["a"] == "abort")]
+                steps = [dict(st) for st in s["steps"] if not (host == "stream" and st["a"] == "abort")]
+                if host != "direct":
+                    for st in steps:
+                        st.pop("nt", None)     # only the direct host can batch
                 if host in ("bridge_bin", "bridge_json"):
                     # the serialized bridge has no notion of dropping a request
                     cutoff = next((k for k, st in enumerate(steps) if st["a"] == "drop"), len(steps))
@@ -198,6 +213,8 @@ def c13(run):
     random_round(run, "longbad", run.seed + 3, 40 if q else 300, ["bridge_bin", "bridge_json"], "mixed", 2,
                  200 if q else 1500, bad=0.15)
     report_known(run)
+    # repeated timer set / clear through the legacy API: the process-wide set of cleared ids
+    legacy_timer(run)
     # findings of C13 are reported whenever the deviation was exercised
     for f in lib.kf_for("C13"):
         if {"D9": run.kfhits[0], "D10": run.kfhits[1]}.get(f["id"], 0) > 0:
@@ -380,11 +397,12 @@ def mt_violation(run, r):
     print("  concurrent outcome differs from every sequential order: " + json.dumps(r.get("agg"))[:400])
 
 
-def table_check(run, spec, invariants, env, nconc, label):
+def table_check(run, spec, invariants, env, nconc, label, consts=""):
     """TLC enumerates a decision table / small state machine completely and prints every row with the
     outcome the specification computes; each row is executed on the real crate (nconc concrete
     members per abstract class); returns the list of failing records"""
-    cfg = "SPECIFICATION Spec\n" + "".join(f"INVARIANT {i}\n" for i in invariants) + "INVARIANT Emit\nCHECK_DEADLOCK FALSE\n"
+    cfg = "SPECIFICATION Spec\n" + consts + "".join(f"INVARIANT {i}\n" for i in invariants) + \
+          "INVARIANT Emit\nCHECK_DEADLOCK FALSE\n"
     out = lib.mc(run, spec, cfg, env, workers=8, timeout=1500, label=label)
     cases = []
     seen = set()
@@ -544,6 +562,16 @@ def c11(run):
                        "processes": nproc, "runs_per_process": 2, "histories_with_divergence": diffs})
 
 
+def legacy_timer(run):
+    """the legacy capability API of crux_time: every bounded behaviour of LegacyTimer.tla executed under Core"""
+    q = run.quick
+    for n, maxact in ((1, 6), (2, 6 if q else 8)) + (() if q else ((3, 7),)):
+        cases, fails, _ = table_check(run, "LegacyTimer",
+                                      ["AtMostOneOutcome", "ClearedOnlyIfAppCleared", "ElapsedOnlyIfAnswered", "ClearedSetDrains"],
+                                      {"MAXACT": str(maxact)}, 1, f"LegacyTimer-N{n}", consts=f"CONSTANT N = {n}\n")
+        report_table_fails(run, "LegacyTimer", fails)
+
+
 TIMER_INV = ["AtMostOneOutcome", "CompletedOnlyIfAnswered", "ClearedOnlyIfAppCleared", "EarlyClearSendsNothing",
              "ExactlyOneClearRequest", "DropHandleNeverCancels", "AbandonedOnlyIfDropped", "NothingAfterOutcome"]
 
@@ -552,7 +580,9 @@ def c18(run):
     run.assumptions = [
         "command API timers hosted one per Command and inspected directly; responses carry the kind and id the "
         "protocol requires (a mismatched response is a documented developer error that panics)",
-        "the legacy capability API's clear is covered by the D11 finding, not by this model"]
+        "the legacy capability API (Time::notify_after(cb), Time::clear(id)) is modelled separately in "
+        "LegacyTimer.tla and executed under Core; D11 (clear after the outcome leaves the id in the process-wide "
+        "set) is a recorded finding"]
     q = run.quick
     total = 0
     for n, maxact in ((1, 9 if q else 11), (2, 7 if q else 8)) + (() if q else ((3, 6),)):
@@ -596,6 +626,7 @@ def c18(run):
             if "REJECTED_AT" not in o:
                 raise lib.ToolError("Trace_Timer accepted a corrupted trace")
             run.stages.append({"stage": "binding-selftest", "spec": "Trace_Timer", "corruptions_rejected": 1})
+    legacy_timer(run)
 
 
 CHECKS = {"C14": c14, "C15": c15, "C16": c16, "C17": c17, "C11": c11, "C18": c18, "C08": c08, "C12": c12, "C01": c01, "C02": c02, "C03": c03, "C04": c04, "C05": c05, "C06": c06, "C07": c07,
